@@ -1356,4 +1356,292 @@ theorem matchBasic_complete (cfg : Cfg) (hg : cfg.arrayGuard = true) (re : Regex
   · next e' heq => exact Or.inr ⟨e', heq⟩
   · cases h
 
+/-! ### submission requirements: the rule is honoured, an error means no selection exists -/
+
+theorem flattenAll_eq : ∀ (list : List Member), flattenAll list = (available list).flatten
+  | [] => rfl
+  | some l :: ms => by simp [flattenAll, available, flattenAll_eq ms]
+  | none :: ms => by simp [flattenAll, available, flattenAll_eq ms]
+
+theorem takeLoopPre_eq (lim : Nat) : ∀ (list : List Member) (i : Nat), i ≤ lim →
+    takeLoopPre lim i list = ((available list).take (lim - i)).flatten
+  | [], i, _ => by simp [takeLoopPre, available]
+  | some l :: ms, i, h => by
+    unfold takeLoopPre
+    split
+    · next heq =>
+      have : i = lim := by simpa using heq
+      subst this
+      simp
+    · next hne =>
+      have hlt : i < lim := by
+        have : i ≠ lim := by simpa using hne
+        omega
+      rw [takeLoopPre_eq lim ms (i + 1) (by omega)]
+      have : lim - i = (lim - (i + 1)) + 1 := by omega
+      rw [this]
+      simp [available]
+  | none :: ms, i, h => by
+    unfold takeLoopPre
+    split
+    · next heq =>
+      have : i = lim := by simpa using heq
+      subst this
+      simp
+    · rw [takeLoopPre_eq lim ms i h]
+      simp [available]
+
+theorem takeLoop_eq (lim : Nat) : ∀ (list : List Member) (i : Nat), i < lim →
+    takeLoop lim i list = ((available list).take (lim - i)).flatten
+  | [], i, _ => by simp [takeLoop, available]
+  | some l :: ms, i, h => by
+    unfold takeLoop
+    have hs : lim - i = (lim - (i + 1)) + 1 := by omega
+    split
+    · next heq =>
+      have : i + 1 = lim := by simpa using heq
+      have h0 : lim - (i + 1) = 0 := by omega
+      rw [hs, h0]
+      simp [available]
+    · next hne =>
+      have hlt : i + 1 < lim := by
+        have : i + 1 ≠ lim := by simpa using hne
+        omega
+      rw [takeLoop_eq lim ms (i + 1) hlt, hs]
+      simp [available]
+  | none :: ms, i, h => by
+    unfold takeLoop
+    split
+    · next heq =>
+      have : i = lim := by simpa using heq
+      omega
+    · rw [takeLoop_eq lim ms i h]
+      simp [available]
+
+theorem selectableCount_eq (list : List Member) : selectableCount list = (available list).length := by
+  unfold selectableCount available
+  induction list with
+  | nil => rfl
+  | cons m ms ih =>
+    cases m with
+    | none => simpa using ih
+    | some l => simp at ih ⊢; exact ih
+
+theorem apply_all (cfg : Cfg) (list : List Member) (count min max : Option Nat) :
+    apply cfg list "all" count min max =
+      if (available list).length != list.length then .err "nocred" else .ok (flattenAll list) := by
+  unfold apply; rw [selectableCount_eq]; simp
+
+theorem apply_count (cfg : Cfg) (list : List Member) (rule : String) (hr : rule ≠ "all") (c : Nat) (min max : Option Nat) :
+    apply cfg list rule (some c) min max =
+      if (available list).length < c then .err "nocred" else .ok (takeLoop c 0 list) := by
+  unfold apply; rw [selectableCount_eq]
+  have : (rule == "all") = false := by simpa using hr
+  simp [this]
+
+theorem apply_minmax (cfg : Cfg) (list : List Member) (rule : String) (hr : rule ≠ "all") (min max : Option Nat) :
+    apply cfg list rule none min max =
+      if cfg.minMaxCheck && minAboveMax min max then .err "nocred"
+      else if belowMin min (available list).length then .err "nocred" else applyMax cfg list max := by
+  unfold apply; rw [selectableCount_eq]
+  have : (rule == "all") = false := by simpa using hr
+  simp [this]
+
+/-- `apply` (repaired): what is returned is a selection of the selectable members that satisfies the rule -/
+theorem apply_rule_ok (cfg : Cfg) (hf : cfg.maxCheckFirst = true) (hmm : cfg.minMaxCheck = true) (hmn : cfg.maxNilCheck = true)
+    (list : List Member) (rule : String) (count min max : Option Nat) (hc : count ≠ some 0) (l : List Cred)
+    (h : apply cfg list rule count min max = .ok l) :
+    ∃ sel : List (List Cred), sel.Sublist (available list) ∧ l = sel.flatten ∧
+      RuleOK rule count min max list.length (available list).length sel.length := by
+  unfold RuleOK
+  by_cases hr : rule = "all"
+  · subst hr
+    rw [apply_all] at h
+    split at h
+    · cases h
+    · next hne =>
+      injection h with h; subst h
+      have : (available list).length = list.length := by simpa using hne
+      exact ⟨available list, List.Sublist.refl _, flattenAll_eq list, by simp [this]⟩
+  · simp only [hr, if_false]
+    cases count with
+    | some c =>
+      rw [apply_count cfg list rule hr] at h
+      split at h
+      · cases h
+      · next hge =>
+        injection h with h; subst h
+        have hc0 : 0 < c := by
+          cases c with
+          | zero => exact absurd rfl hc
+          | succ _ => omega
+        refine ⟨(available list).take c, List.take_sublist _ _, ?_, ?_⟩
+        · rw [takeLoop_eq c list 0 hc0]; simp
+        · simp only [List.length_take]; omega
+    | none =>
+      rw [apply_minmax cfg list rule hr] at h
+      simp only [hmm, Bool.true_and] at h
+      split at h
+      · cases h
+      · next hmm' =>
+        split at h
+        · cases h
+        · next hbm =>
+          have hmin : ∀ a, min = some a → a ≤ (available list).length ∧ ∀ b, max = some b → a ≤ b := by
+            intro a ha
+            subst ha
+            refine ⟨?_, fun b hb => ?_⟩
+            · have : ¬ ((available list).length < a) := by
+                intro hlt; apply hbm; simp [belowMin, hlt]
+              omega
+            · subst hb
+              have : ¬ (b < a) := by
+                intro hlt; apply hmm'; simp [minAboveMax, hlt]
+              omega
+          unfold applyMax at h
+          cases max with
+          | some m =>
+            simp only [hf, if_true] at h
+            injection h with h; subst h
+            refine ⟨(available list).take m, List.take_sublist _ _, ?_, ?_, ?_⟩
+            · rw [takeLoopPre_eq m list 0 (Nat.zero_le _)]; simp
+            · intro a ha
+              have := hmin a ha
+              have h2 := this.2 m rfl
+              simp only [List.length_take]; omega
+            · intro b hb
+              injection hb with hb; subst hb
+              simp only [List.length_take]; omega
+          | none =>
+            simp only [hmn, if_true] at h
+            injection h with h; subst h
+            exact ⟨available list, List.Sublist.refl _, flattenAll_eq list, fun a ha => (hmin a ha).1, fun _ hb => (by cases hb)⟩
+
+/-- `apply` (repaired): an error means that NO selection of the selectable members satisfies the rule -/
+theorem apply_error_complete (cfg : Cfg) (hmn : cfg.maxNilCheck = true)
+    (list : List Member) (rule : String) (count min max : Option Nat) (e : String)
+    (h : apply cfg list rule count min max = .err e) :
+    ∀ sel : List (List Cred), sel.Sublist (available list) → ¬ RuleOK rule count min max list.length (available list).length sel.length := by
+  intro sel hsub hok
+  have hle := hsub.length_le
+  unfold RuleOK at hok
+  by_cases hr : rule = "all"
+  · subst hr
+    simp only [if_true] at hok
+    rw [apply_all] at h
+    split at h
+    · next hne => exact (by simpa using hne : (available list).length ≠ list.length) hok.1
+    · cases h
+  · simp only [hr, if_false] at hok
+    cases count with
+    | some c =>
+      simp only at hok
+      rw [apply_count cfg list rule hr] at h
+      split at h
+      · omega
+      · cases h
+    | none =>
+      simp only at hok
+      rw [apply_minmax cfg list rule hr] at h
+      split at h
+      · next hmm' =>
+        simp only [Bool.and_eq_true] at hmm'
+        cases min with
+        | none => simp [minAboveMax] at hmm'
+        | some a =>
+          cases max with
+          | none => simp [minAboveMax] at hmm'
+          | some b =>
+            have h1 := hok.1 a rfl
+            have h2 := hok.2 b rfl
+            have : b < a := by simpa [minAboveMax] using hmm'.2
+            omega
+      · split at h
+        · next hbm =>
+          cases min with
+          | none => simp [belowMin] at hbm
+          | some a =>
+            have h1 := hok.1 a rfl
+            have : (available list).length < a := by simpa [belowMin] using hbm
+            omega
+        · unfold applyMax at h
+          cases max with
+          | some m => simp at h
+          | none => simp [hmn] at h
+
+theorem matchSR_cases (cfg : Cfg) (cands : List Cand) (s : SR) (r : Res (List Cred)) (h : SR.matchSR cfg cands s = r) :
+    (∃ e, r = .err e ∧ (e = "sr-both" ∨ e = "sr-missing" ∨ e = "sr-rule")) ∨
+    (∃ e, r = .err e ∧ s.nested ≠ [] ∧ SR.nestedMembers cfg cands s.nested = .err e) ∨
+    (∃ p, r = .panic p) ∨
+    (∃ members, MembersOf cfg cands s members ∧ r = apply cfg members s.rule s.count s.min s.max) := by
+  obtain ⟨name, rule, count, min, max, frm, nested⟩ := s
+  unfold SR.matchSR at h
+  simp only [SR.frm, SR.nested, SR.rule, SR.count, SR.min, SR.max, MembersOf]
+  split at h
+  · exact Or.inl ⟨_, h.symm, Or.inl rfl⟩
+  · next h1 =>
+    split at h
+    · exact Or.inl ⟨_, h.symm, Or.inr (Or.inl rfl)⟩
+    · next h2 =>
+      split at h
+      · exact Or.inl ⟨_, h.symm, Or.inr (Or.inr rfl)⟩
+      · split at h
+        · next hn =>
+          have hne : nested ≠ [] := by intro hEq; simp [hEq] at hn
+          have hfrm : frm = "" := by
+            cases hfe : (frm != "") with
+            | false => simpa using hfe
+            | true => exfalso; apply h1; simp [hfe, hn]
+          split at h
+          · next ms heq => exact Or.inr (Or.inr (Or.inr ⟨ms, Or.inr ⟨hfrm, hne, heq⟩, h.symm⟩))
+          · next e heq => exact Or.inr (Or.inl ⟨e, h.symm, hne, heq⟩)
+          · next p _ => exact Or.inr (Or.inr (Or.inl ⟨p, h.symm⟩))
+        · next hn =>
+          have hnil : nested = [] := by
+            cases nested with
+            | nil => rfl
+            | cons _ _ => simp at hn
+          have hfrm : frm ≠ "" := by
+            intro hEq; apply h2; simp [hEq, hnil]
+          exact Or.inr (Or.inr (Or.inr ⟨_, Or.inl ⟨hfrm, hnil, rfl⟩, h.symm⟩))
+
+theorem nestedMembers_noErr (cfg : Cfg) (cands : List Cand) : ∀ (ss : List SR) (e : String), SR.nestedMembers cfg cands ss ≠ .err e
+  | [], e => by unfold SR.nestedMembers; intro h; cases h
+  | s :: ss, e => by
+    unfold SR.nestedMembers
+    have ih := nestedMembers_noErr cfg cands ss
+    split
+    · intro h; cases h
+    · simp only
+      split
+      · intro h; cases h
+      · next e' heq => exact absurd heq (ih e')
+      · intro h; cases h
+
+/-- a submission requirement that succeeds returns a selection of its members that satisfies its rule -/
+theorem sr_rule_ok (cfg : Cfg) (hf : cfg.maxCheckFirst = true) (hmm : cfg.minMaxCheck = true) (hmn : cfg.maxNilCheck = true)
+    (cands : List Cand) (s : SR) (hc : s.count ≠ some 0) (l : List Cred) (h : SR.matchSR cfg cands s = .ok l) :
+    ∃ members, MembersOf cfg cands s members ∧
+      ∃ sel : List (List Cred), sel.Sublist (available members) ∧ l = sel.flatten ∧
+        RuleOK s.rule s.count s.min s.max members.length (available members).length sel.length := by
+  rcases matchSR_cases cfg cands s _ h with ⟨e, he, _⟩ | ⟨e, he, _⟩ | ⟨p, hp⟩ | ⟨members, hm, hr⟩
+  · cases he
+  · cases he
+  · cases hp
+  · exact ⟨members, hm, apply_rule_ok cfg hf hmm hmn members s.rule s.count s.min s.max hc l hr.symm⟩
+
+/-- a submission requirement that fails is malformed (both/neither of `from`, `from_nested`; unknown rule) or NO
+    selection of its members satisfies its rule — never a partial selection -/
+theorem sr_error_complete (cfg : Cfg) (hmn : cfg.maxNilCheck = true) (cands : List Cand) (s : SR) (e : String)
+    (h : SR.matchSR cfg cands s = .err e) :
+    (e = "sr-both" ∨ e = "sr-missing" ∨ e = "sr-rule") ∨
+    ∃ members, MembersOf cfg cands s members ∧
+      ∀ sel : List (List Cred), sel.Sublist (available members) →
+        ¬ RuleOK s.rule s.count s.min s.max members.length (available members).length sel.length := by
+  rcases matchSR_cases cfg cands s _ h with ⟨e', he, hk⟩ | ⟨e', _, _, hn⟩ | ⟨p, hp⟩ | ⟨members, hm, hr⟩
+  · injection he with he; subst he; exact Or.inl hk
+  · exact absurd hn (nestedMembers_noErr cfg cands _ _)
+  · cases hp
+  · exact Or.inr ⟨members, hm, apply_error_complete cfg hmn members s.rule s.count s.min s.max e hr.symm⟩
+
 end Nuts.C12
